@@ -28,8 +28,24 @@ pub fn property() -> Property {
                 quick: 160,
                 thorough: 6_000,
                 single_shard: false, supplementary: false,
-                run: |cfg| run_part(cfg, (gen::raw_playout(16), proptest::collection::vec((0..6u8, any::<u16>(), any::<bool>()), 2..9), any::<bool>()), |(r, plan, fen_root)| self_play_case(r, plan, *fen_root), check_self_play),
+                run: |cfg| run_part(cfg, (gen::raw_playout(16), proptest::collection::vec((0..20u8, any::<u16>(), any::<bool>()), 2..9), any::<bool>()), |(r, plan, fen_root)| self_play_case(r, plan, *fen_root), check_self_play),
                 replay: |v| replay_case::<SelfPlayCase, _>(v, check_self_play),
+            },
+            Part {
+                name: "adversarial_followup",
+                quick: 1_600,
+                thorough: 60_000,
+                single_shard: false, supplementary: false,
+                run: |cfg| run_part(cfg, (prop_oneof![3 => gen::raw_pos(60), 1 => gen::raw_pos_endgames()], 1..=4u32, 1..=3u32, any::<u16>()), |(r, d1, d2, x)| AdvCase { fen: { let mut p = gen::position(r, ClockDomain::EngineQuiet); p.half = p.half.min(60); p.fen() }, first_depth: *d1, second_depth: *d2, pick: *x }, check_adversarial),
+                replay: |v| replay_case::<AdvCase, _>(v, check_adversarial),
+            },
+            Part {
+                name: "long_session",
+                quick: 16,
+                thorough: 320,
+                single_shard: false, supplementary: false,
+                run: |cfg| run_part(cfg, (gen::raw_playout(60), any::<u32>()), |(r, salt)| long_case(r, *salt), check_long_session),
+                replay: |v| replay_case::<LongCase, _>(v, check_long_session),
             },
             Part { name: "known_k1", quick: 1, thorough: 1, single_shard: true, supplementary: true, run: probe_k1, replay: |_| Ok(()) },
         ],
@@ -180,8 +196,8 @@ pub fn build_go(c: &RawCycle, root: &Pos) -> GoSpec {
                 }
                 _ => g.winc = Some((c.b / 4 % 30) as u64),
             }
-            if c.b % 5 == 0 {
-                g.movestogo = Some(1 + (c.b / 7 % 40) as u64);
+            if c.b % 3 == 0 {
+                g.movestogo = Some([0u64, 1, 2, 3, 10, 25, 40, 200][(c.b / 7 % 8) as usize]);
             }
         }
         5 => {
@@ -587,7 +603,15 @@ fn self_play_case(r: &gen::RawPlayout, plan: &[(u8, u16, bool)], fen_root: bool)
     let g = gen::play(&h, if fen_root { ClockDomain::Engine } else { ClockDomain::Keep });
     let mut start = g.start.clone();
     start.half = start.half.min(60);
-    SelfPlayCase { fen: start.fen(), history: g.moves.iter().map(Mv::uci).collect(), plan: plan.to_vec() }
+    // a long think is usually followed by the expected reply and an instant move (the clock is nearly out)
+    let mut plan = plan.to_vec();
+    for i in 1..plan.len() {
+        if plan[i - 1].0 >= 18 && plan[i].1 % 4 != 0 {
+            plan[i - 1].2 = true;
+            plan[i].0 = 14 + (plan[i].1 % 2) as u8;
+        }
+    }
+    SelfPlayCase { fen: start.fen(), history: g.moves.iter().map(Mv::uci).collect(), plan }
 }
 
 pub fn check_self_play(c: &SelfPlayCase, ctx: &mut Ctx) -> Result<(), String> {
@@ -601,12 +625,22 @@ pub fn check_self_play(c: &SelfPlayCase, ctx: &mut Ctx) -> Result<(), String> {
             break;
         }
         let g = match kind {
-            0 => GoSpec::depth(1),
-            1 | 2 => GoSpec::depth(2),
-            3 => GoSpec::depth(3),
-            4 => GoSpec { movetime: Some((choice % 30) as u64), ..GoSpec::default() },
-            _ => GoSpec { wtime: Some(2000), btime: Some(2000), winc: Some((choice % 40) as u64), binc: Some((choice % 40) as u64), ..GoSpec::default() },
+            0 | 1 => GoSpec::depth(1),
+            2..=4 => GoSpec::depth(2),
+            5 | 6 => GoSpec::depth(3),
+            7..=9 => GoSpec { movetime: Some((choice % 30) as u64), ..GoSpec::default() },
+            10..=13 => GoSpec { wtime: Some(2000), btime: Some(2000), winc: Some((choice % 40) as u64), binc: Some((choice % 40) as u64), ..GoSpec::default() },
+            // no time left at all
+            14 => GoSpec { movetime: Some(0), ..GoSpec::default() },
+            15 => GoSpec { wtime: Some(1), btime: Some(1), ..GoSpec::default() },
+            // longer thinks: iterations of 100,000 nodes and more are completed
+            16 | 17 => GoSpec { movetime: Some(120 + (choice % 200) as u64), ..GoSpec::default() },
+            18 => GoSpec { movetime: Some(900 + (choice % 900) as u64), ..GoSpec::default() },
+            _ => GoSpec::depth(6),
         };
+        if kind >= 18 {
+            ctx.class("long_think");
+        }
         s.position(&c.fen, &hist)?;
         trace.push(format!("position fen {} moves {}", c.fen, hist.join(" ")));
         trace.push(g.to_line());
@@ -649,5 +683,171 @@ pub fn check_self_play(c: &SelfPlayCase, ctx: &mut Ctx) -> Result<(), String> {
         ctx.nontrivial((c.fen.clone(), c.history.clone(), c.plan.clone()));
     }
     ctx.sample(|| serde_json::json!({"fen": c.fen, "initial_history": c.history, "turns": c.plan.len(), "final_history": hist}));
+    Ok(())
+}
+
+// ------------------------------------------------------------------------------------------------
+// one instance used for thousands of searches (a bot playing bullet for hours): lifetime counters, tables that
+// fill up, whatever else accumulates must never cost an answer
+
+#[derive(Debug, Clone, Serialize, Deserialize)]
+pub struct LongCase {
+    pub fen: String,
+    pub line: Vec<String>,
+    pub searches: u32,
+    pub salt: u32,
+}
+
+fn long_case(r: &gen::RawPlayout, salt: u32) -> LongCase {
+    let mut h = r.clone();
+    h.flip = false;
+    let g = gen::play(&h, ClockDomain::EngineQuiet);
+    LongCase { fen: g.start.fen(), line: g.moves.iter().map(Mv::uci).collect(), searches: 12_000, salt }
+}
+
+pub fn check_long_session(c: &LongCase, ctx: &mut Ctx) -> Result<(), String> {
+    let mut s = Session::new();
+    // roots: every prefix of the line, visited round robin
+    let mut roots: Vec<(Vec<String>, Pos)> = Vec::new();
+    for k in 0..=c.line.len() {
+        let hist = c.line[..k].to_vec();
+        let root = root_of(&c.fen, &hist)?;
+        if root.legal_moves().is_empty() || root.half >= 80 {
+            break;
+        }
+        roots.push((hist, root));
+    }
+    if roots.is_empty() {
+        return Ok(());
+    }
+    let mut x = c.salt | 1;
+    let mut done = 0u32;
+    let mut nodes = 0u64;
+    for i in 0..c.searches {
+        x ^= x << 13;
+        x ^= x >> 17;
+        x ^= x << 5;
+        let (hist, root) = &roots[(i as usize * 7 + (x as usize % 3)) % roots.len()];
+        // cheap limits only: zero / tiny budgets and depth 1..2
+        let g = match x % 8 {
+            0..=3 => GoSpec { movetime: Some(0), ..GoSpec::default() },
+            4 => GoSpec { wtime: Some(1), btime: Some(1), ..GoSpec::default() },
+            5 if x & 0x100 == 0 => GoSpec { wtime: Some(50), btime: Some(50), winc: Some(0), binc: Some(0), ..GoSpec::default() },
+            5 => GoSpec { wtime: Some(40), btime: Some(40), movestogo: Some((x >> 9) as u64 % 4), ..GoSpec::default() },
+            6 => GoSpec::depth(1),
+            _ => GoSpec::depth(2),
+        };
+        // half of the sessions are one single game without end, the others start a new game now and then
+        if c.salt % 2 == 0 && x % 1024 == 9 {
+            s.new_game();
+            ctx.class("ucinewgame_inside_long_session");
+        }
+        s.position(&c.fen, hist)?;
+        let out = match s.search(&g) {
+            Wait::Done(o) => o,
+            Wait::ThreadDied(why, _) => return Err(format!("search {} of one long session (position fen {} moves {hist:?}; `{}`): no bestmove: {why}", i + 1, c.fen, g.to_line())),
+            Wait::Timeout => return Err(format!("{HARNESS_PREFIX} watchdog in long session at search {}", i + 1)),
+        };
+        judge_answer(root, hist.len(), &g, out.best_uci(), ctx).map_err(|e| format!("search {} of one long session on one instance ({} negamax+quiescence nodes reported so far): {e}", i + 1, nodes))?;
+        nodes += out.infos.iter().filter_map(|i| i.nodes).max().unwrap_or(0);
+        done += 1;
+    }
+    if s.thread_finished() {
+        return Err(format!("search thread is no longer alive after {done} searches"));
+    }
+    s.quit()?;
+    ctx.evals(done as u64);
+    ctx.class("long_sessions");
+    ctx.class(&format!("reported_nodes_ge_{}", if nodes >= 1_000_000 { "1M" } else if nodes >= 200_000 { "200k" } else if nodes >= 100_000 { "100k" } else { "0" }));
+    ctx.nontrivial((c.fen.clone(), c.line.clone(), c.salt));
+    ctx.sample(|| serde_json::json!({"fen": c.fen, "line_plies": c.line.len(), "searches": done, "nodes_reported": nodes}));
+    Ok(())
+}
+
+// ------------------------------------------------------------------------------------------------
+// what an earlier search leaves behind (principal variation, killer moves, table entries) must never make a move
+// playable that is illegal in the next position: the next position is BUILT so that the move the engine just
+// preferred is still pseudo-legal, with identical clocks and capture, but illegal (pinned piece / king in check)
+
+#[derive(Debug, Clone, Serialize, Deserialize)]
+pub struct AdvCase {
+    pub fen: String,
+    pub first_depth: u32,
+    pub second_depth: u32,
+    pub pick: u16,
+}
+
+/// positions that differ from `p` by one added enemy piece, in which `m` is still pseudo-legal but no longer legal
+fn make_illegal(p: &Pos, m: Mv) -> Vec<Pos> {
+    let enemy = p.turn.other();
+    let mut out = Vec::new();
+    for e in 0..64u8 {
+        if p.board[e as usize].is_some() || e == m.from || e == m.to || Some(e) == p.ep {
+            continue;
+        }
+        for kind in [Kind::Queen, Kind::Rook, Kind::Bishop, Kind::Knight, Kind::Pawn] {
+            if kind == Kind::Pawn && (e < 8 || e >= 56) {
+                continue;
+            }
+            let mut q = p.clone();
+            q.board[e as usize] = Some((enemy, kind));
+            if !q.is_sane() || !q.pseudo_moves().contains(&m) || q.is_legal(m) || q.legal_moves().is_empty() {
+                continue;
+            }
+            out.push(q);
+        }
+    }
+    out
+}
+
+pub fn check_adversarial(c: &AdvCase, ctx: &mut Ctx) -> Result<(), String> {
+    let p = Pos::from_fen(&c.fen).ok_or_else(|| format!("{HARNESS_PREFIX} bad fen {}", c.fen))?;
+    if p.legal_moves().is_empty() {
+        return Ok(());
+    }
+    let mut s = Session::new();
+    s.position(&c.fen, &[])?;
+    let g1 = GoSpec::depth(c.first_depth as u64);
+    let out = match s.search(&g1) {
+        Wait::Done(o) => o,
+        Wait::ThreadDied(why, _) => return Err(format!("no bestmove for {} `{}`: {why}", c.fen, g1.to_line())),
+        Wait::Timeout => return Err(format!("{HARNESS_PREFIX} watchdog at {}", c.fen)),
+    };
+    judge_answer(&p, 0, &g1, out.best_uci(), ctx)?;
+    let best = out.best_uci().and_then(|m| Mv::parse(&m)).ok_or_else(|| format!("{HARNESS_PREFIX} unreadable bestmove"))?;
+    let cands = make_illegal(&p, best);
+    if cands.is_empty() {
+        ctx.class("no_variant_found");
+        s.quit()?;
+        return Ok(());
+    }
+    let q = &cands[gen::pick(c.pick as u32, 16, cands.len())];
+    s.position(&q.fen(), &[])?;
+    let g2 = GoSpec::depth(c.second_depth as u64);
+    let what = format!("after `position fen {}`, `{}` (bestmove {best}) the position {} is searched, in which {best} is pseudo-legal but illegal", c.fen, g1.to_line(), q.fen());
+    let out2 = match s.search(&g2) {
+        Wait::Done(o) => o,
+        Wait::ThreadDied(why, _) => return Err(format!("{what}: no bestmove: {why}")),
+        Wait::Timeout => return Err(format!("{HARNESS_PREFIX} watchdog at {}", q.fen())),
+    };
+    judge_answer(q, 0, &g2, out2.best_uci(), ctx).map_err(|e| format!("{what}: {e}"))?;
+    // every reported pv of the second search is a legal line
+    for i in &out2.infos {
+        if let Some(pv) = &i.principal_variation {
+            let mut r = q.clone();
+            for m in pv {
+                let mv = Mv::parse(&m.to_string()).filter(|x| r.is_legal(*x)).ok_or_else(|| format!("{what}: reported pv {:?} is not a legal line", pv.iter().map(|m| m.to_string()).collect::<Vec<_>>()))?;
+                r = r.apply(mv);
+            }
+        }
+    }
+    if s.thread_finished() {
+        return Err(format!("{what}: the search thread is gone afterwards"));
+    }
+    s.quit().map_err(|e| format!("{what}: {e}"))?;
+    ctx.evals(1);
+    ctx.class(if q.in_check(q.turn) { "mover_now_in_check" } else { "piece_now_pinned" });
+    ctx.nontrivial((c.fen.clone(), q.fen(), c.first_depth, c.second_depth));
+    ctx.sample(|| serde_json::json!({"first": c.fen, "first_depth": c.first_depth, "preferred": best.uci(), "second": q.fen(), "second_depth": c.second_depth}));
     Ok(())
 }
